@@ -216,7 +216,7 @@ class Edges(object):
                 return False
         return True
 
-    def relate(self, edge, ref, A, B, fa, fb, rel, rel_sigma, case, cls, srcs):
+    def relate(self, edge, ref, A, B, fa, fb, rel, rel_sigma, case, cls, srcs, standalone=None):
         self.acc.transitions += 1
         self.acc.traces += 1
         if self.acc.transitions % 150001 == 5:
@@ -228,7 +228,8 @@ class Edges(object):
                        if A[k] is not None and not isinstance(A[k], complex))
             self.acc.violation("%s:%s" % (edge, cls), case, exp,
                                dict((k, repr(B[k])) for k in rn.OUTPUTS),
-                               standalone=self.snippet(srcs), detail=dict(failing=bad, failing_set=what, factor=fa))
+                               standalone=standalone or self.snippet(srcs),
+                               detail=dict(failing=bad, failing_set=what, factor=fa))
             return False
         return True
 
@@ -317,8 +318,8 @@ class Edges(object):
                 B = self.scalarize(B)
                 if self.invariants(B, c2, cls, esrc):
                     self.relate("energy-vs-wavelength", ref, A, B, 1.0, 1.0, 1e-9, 1e-11, c2, cls, [bsrc, esrc])
-                # natural_density x k (neutral compounds)
-                if all(k[2] == 0 for n, k in frags) and w in (1.798, 4.75):
+                # natural_density x k (ions and isotope ions included: their natural mass keeps the charge)
+                if w in (1.798, 4.75):
                     st, A2 = self.call(comp, src, dict(natural_density=d, wavelength=w), None)
                     st2, B2 = self.call(comp, src, dict(natural_density=d * 2.0, wavelength=w), None)
                     c2 = dict(case, edge="natural_density", k=2.0)
@@ -360,52 +361,105 @@ class Edges(object):
         comp, src = self.compound_args(frags)
         jf = [[c, list(k)] for c, k in frags]
         scalars = {}
+        buffers = {}
         for vi, vec in enumerate(self.vector_sets(frags)):
             for how in (("wavelength", "energy") if vi % 5 == 0 else ("wavelength",)):
                 acc.states += 1
                 acc.nontrivial += 1
                 case = dict(kind="vector", frags=jf, density=d, vector=vec, how=how)
-                if how == "wavelength" and vi % 7 == 3:
-                    arg = list(vec)                      # a plain list (the library's own tests pass lists)
-                    vsrc = "%s, density=%r, wavelength=%r" % (src, d, vec)
-                elif how == "wavelength":
-                    arg = np.array(vec, dtype=float)
-                    vsrc = "%s, density=%r, wavelength=np.array(%r)" % (src, d, vec)
+                prev = None
+                if how == "wavelength":
+                    # the caller keeps ONE buffer per length (every 7th vector: a plain list, as the library's own
+                    # tests pass lists) and refills it in place for the next vector
+                    bkind = "list" if vi % 7 == 3 else "array"
+                    slot = (bkind, len(vec))
+                    if slot in buffers:
+                        arg, prev = buffers[slot]
+                        arg[:] = vec
+                    else:
+                        arg = list(vec) if bkind == "list" else np.array(vec, dtype=float)
+                    buffers[slot] = (arg, list(vec))
+                    lit = (lambda v: repr(list(v))) if bkind == "list" else (lambda v: "np.array(%r)" % (list(v),))
+                    vsrc = "%s, density=%r, wavelength=%s" % (src, d, lit(vec))
+                    before = list(arg) if bkind == "list" else arg.tobytes()
                 else:
                     arg = self.nsf.neutron_energy(np.array(vec, dtype=float))
                     vsrc = "%s, density=%r, energy=nsf.neutron_energy(np.array(%r))" % (src, d, vec)
                 st, V = self.call(comp, src, {"density": d, how: arg}, None)
-                if st == "exc":
-                    acc.violation("raises:vector:%s" % cls, case, "vectors", V, standalone=self.snippet([vsrc]))
-                    continue
-                shapes = dict((k, np.shape(v)) for k, v in V.items())
-                if any(s != (len(vec),) for s in shapes.values()):
-                    acc.violation("vector-shape:%s" % cls, case, "every output of shape (%d,)" % len(vec),
-                                  repr(shapes), standalone=self.snippet([vsrc]))
-                    continue
-                acc.outcome("vector length %d (%s%s)" % (len(vec), cls, ", repeated" if len(set(vec)) < len(vec)
-                                                         else ""))
-                for i, w in enumerate(vec):
-                    if w not in scalars:
-                        ssrc = "%s, density=%r, wavelength=%r" % (src, d, w)
-                        st, S = self.call(comp, src, dict(density=d, wavelength=w), None)
-                        if st == "exc":
-                            acc.violation("raises:base:%s" % cls, dict(case, index=i), "a result", S,
-                                          standalone=self.snippet([ssrc]))
-                            scalars[w] = None
-                        else:
-                            scalars[w] = (self.scalarize(S), ssrc)
-                    if scalars[w] is None:
+                if how == "wavelength":
+                    after = list(arg) if bkind == "list" else arg.tobytes()
+                    if after != before or (bkind == "list" and any(type(x) is not float for x in arg)):
+                        acc.violation("argument-altered:wavelength-%s" % bkind, case, "the caller's vector unchanged: %r"
+                                      % (vec,), repr(list(arg)),
+                                      standalone="import numpy as np\nimport periodictable as pt\nw = %s\n"
+                                                 "pt.neutron_scattering(%s, density=%r, wavelength=w)\nprint(w)\n"
+                                                 % (lit(vec), src, d))
+                        del buffers[slot]
                         continue
-                    S, ssrc = scalars[w]
-                    B = self.scalarize(V, i)
-                    ref = self.data.evaluate(frags, d, w)
-                    c2 = dict(case, index=i)
-                    if not self.invariants(B, c2, cls, vsrc):
-                        break
-                    tol = (1e-12, 1e-12) if how == "wavelength" else (1e-9, 1e-11)
-                    if not self.relate("vector-entry", ref, S, B, 1.0, 1.0, tol[0], tol[1], c2, cls, [ssrc, vsrc]):
-                        break
+                if prev is not None and prev != list(vec) and \
+                        not self._vector_check(frags, comp, src, d, cls, case, vec, how, st, V, vsrc, scalars, True):
+                    # wrong after the refill: is a fresh vector with the same contents right?
+                    fresh = list(vec) if bkind == "list" else np.array(vec, dtype=float)
+                    st0, V0 = self.call(comp, src, {"density": d, how: fresh}, None)
+                    if self._vector_check(frags, comp, src, d, cls, case, vec, how, st0, V0, vsrc, scalars, True):
+                        acc.transitions += 1
+                        show = lambda st_, V_: (V_ if st_ == "exc" else
+                                                dict((k, np.asarray(v).tolist()) for k, v in V_.items()))
+                        acc.violation("vector-buffer-refilled-in-place:%s" % cls, dict(case, previous=prev),
+                                      "the result of a fresh vector with the same contents: %s" % (show(st0, V0),),
+                                      show(st, V),
+                                      standalone="import numpy as np\nimport periodictable as pt\nw = %s\n"
+                                                 "pt.neutron_scattering(%s, density=%r, wavelength=w)\nw[:] = %r\n"
+                                                 "print(pt.neutron_scattering(%s, density=%r, wavelength=w))\n"
+                                                 "print(pt.neutron_scattering(%s, density=%r, wavelength=%s))\n"
+                                                 % (lit(prev), src, d, list(vec), src, d, src, d, lit(vec)))
+                        del buffers[slot]
+                        continue
+                self._vector_check(frags, comp, src, d, cls, case, vec, how, st, V, vsrc, scalars, False)
+
+    def _vector_check(self, frags, comp, src, d, cls, case, vec, how, st, V, vsrc, scalars, quiet):
+        """entry i of the vector result == the scalar call at the i-th wavelength.  quiet: only the verdict."""
+        acc = self.acc
+        if st == "exc":
+            if not quiet:
+                acc.violation("raises:vector:%s" % cls, case, "vectors", V, standalone=self.snippet([vsrc]))
+            return False
+        shapes = dict((k, np.shape(v)) for k, v in V.items())
+        if any(s != (len(vec),) for s in shapes.values()):
+            if not quiet:
+                acc.violation("vector-shape:%s" % cls, case, "every output of shape (%d,)" % len(vec),
+                              repr(shapes), standalone=self.snippet([vsrc]))
+            return False
+        if not quiet:
+            acc.outcome("vector length %d (%s%s)" % (len(vec), cls, ", repeated" if len(set(vec)) < len(vec)
+                                                     else ""))
+        for i, w in enumerate(vec):
+            if w not in scalars:
+                ssrc = "%s, density=%r, wavelength=%r" % (src, d, w)
+                st, S = self.call(comp, src, dict(density=d, wavelength=w), None)
+                if st == "exc":
+                    acc.violation("raises:base:%s" % cls, dict(case, index=i), "a result", S,
+                                  standalone=self.snippet([ssrc]))
+                    scalars[w] = None
+                else:
+                    scalars[w] = (self.scalarize(S), ssrc)
+            if scalars[w] is None:
+                continue
+            S, ssrc = scalars[w]
+            B = self.scalarize(V, i)
+            ref = self.data.evaluate(frags, d, w)
+            c2 = dict(case, index=i)
+            tol = (1e-12, 1e-12) if how == "wavelength" else (1e-9, 1e-11)
+            if quiet:
+                if any(B[k] is None or isinstance(B[k], complex) or not (B[k] >= 0) for k in NONNEG) or \
+                        rn.compare(ref, (S, B), rel=tol[0], rel_sigma=tol[1]):
+                    return False
+                continue
+            if not self.invariants(B, c2, cls, vsrc):
+                return False
+            if not self.relate("vector-entry", ref, S, B, 1.0, 1.0, tol[0], tol[1], c2, cls, [ssrc, vsrc]):
+                return False
+        return True
 
     # ---- (C) structure edges of one fragment multiset
     def structure_wavelengths(self, frags):
@@ -488,12 +542,9 @@ class Edges(object):
         base = c03.norm_frags(base)
         cls = self.cls(base)
         self.data.clear_cache()
-        neutral = all(k[2] == 0 for c, k in base)
         comp0, src0 = self.compound_args(base)
         jf = [[c, list(k)] for c, k in base]
-        dens_forms = [("density", 2.33)]
-        if neutral:
-            dens_forms.append(("natural_density", 1.0))
+        dens_forms = [("density", 2.33), ("natural_density", 1.0)]
         wls = self.structure_wavelengths(base)
         bases = {}
         for dk, dv in dens_forms:
